@@ -131,12 +131,14 @@ def inv(c):
     n = len(c.knotvector) - c.degree - 1
     if c.npts != n:
         return "npts %d != len(knotvector)-degree-1 = %d" % (c.npts, n)
-    if c.ctrlpoints is None or len(c.ctrlpoints) != n:
-        return "len(ctrlpoints) = %s, npts = %d" % (None if c.ctrlpoints is None else len(c.ctrlpoints), n)
+    if c.ctrlpoints is not None and len(c.ctrlpoints) != n:
+        return "len(ctrlpoints) = %s, npts = %d" % (len(c.ctrlpoints), n)
     if c.weights is not None and len(c.weights) != n:
         return "len(weights) = %d, npts = %d" % (len(c.weights), n)
     if not spec.WF(tuple(c.knotvector), c.degree):
         return "knot vector not well-formed"
+    if c.ctrlpoints is None:        # a curve without control points (possibly with weights): nothing to evaluate yet
+        return None
     try:
         a, b = c.knotvector.limits
         c(a), c(b), c((a + b) / 2)
@@ -176,6 +178,9 @@ STARTS = {
     "p0": ([F(0), F(1), F(3)], [F(2), F(-1)], None),
     "p2rat": ([F(0)] * 3 + [F(3)] * 3, [F(1), F(2), F(0)], [F(1), F(2), F(1)]),
 }
+# curves without control points: with weights only (D26) and with neither
+STARTS["p1wonly"] = ([F(0), F(0), F(1), F(3), F(3)], None, [F(1), F(2), F(3)])
+STARTS["p2empty"] = ([F(0)] * 3 + [F(1)] + [F(3)] * 3, None, None)
 # a curve with redundant knots: knot 1 stored twice (one copy redundant) and knot 2 redundant, so that a multi-node removal can be
 # possible for its first node and impossible for a later one
 _U0 = [F(0)] * 3 + [F(1)] + [F(3)] * 3
@@ -194,8 +199,8 @@ def task_histories(start, depth, chunk, nchunks):
         if idx % nchunks != chunk:
             continue
         shared = KV(list(U))
-        c = Curve(shared, list(P), None if W is None else list(W))
-        partner = Curve(shared, list(P), None if W is None else list(W))      # built from the same KnotVector object
+        c = Curve(shared, None if P is None else list(P), None if W is None else list(W))
+        partner = Curve(shared, None if P is None else list(P), None if W is None else list(W))      # built from the same KnotVector object
         pstate = state(partner)
         for i in seq:
             name, op, mutating = ops[i]
@@ -239,6 +244,8 @@ def task_copies():
     fn = "curves.BaseCurve.__copy__"
     out = []
     for start, (U, P, W) in STARTS.items():
+        if P is None:
+            continue
         c = Curve(list(U), list(P), W)
         d, e = copy(c), deepcopy(c)
         s0 = state(c)
@@ -281,8 +288,8 @@ def replay(o):
     ops = {n: (f, m) for n, f, m in ops_table()}
     U, P, W = STARTS[w["start"]]
     shared = KV(list(U))
-    c = Curve(shared, list(P), None if W is None else list(W))
-    partner = Curve(shared, list(P), None if W is None else list(W))
+    c = Curve(shared, None if P is None else list(P), None if W is None else list(W))
+    partner = Curve(shared, None if P is None else list(P), None if W is None else list(W))
     pstate = state(partner)
     log = []
     for name in w["ops"]:
